@@ -60,3 +60,14 @@ impl LuaIndex for LuaDeclIndex {
         self.decl_trees.clear();
     }
 }
+
+#[cfg(feature = "verif-hooks")]
+impl LuaDeclIndex {
+    pub(crate) fn verif_sizes(&self) -> Vec<(&'static str, usize)> {
+        vec![("decl_trees", self.decl_trees.len())]
+    }
+
+    pub(crate) fn verif_file_refs(&self, file_id: FileId) -> Vec<(&'static str, usize)> {
+        vec![("decl_trees", self.decl_trees.contains_key(&file_id) as usize)]
+    }
+}
